@@ -256,6 +256,63 @@ def is_perm_by_index(rows, n):
     return True
 
 
+# one parsed statement evaluated on several inputs in turn: the result is that of the documented meaning on the current
+# input, whatever the same statement was evaluated on before (the expected values are written out by hand)
+def _group_model(rows, agg):
+    groups = []
+    for k, v in rows:
+        for g in groups:
+            if g[0] == k:
+                g[1].append(v)
+                break
+        else:
+            groups.append([k, [v]])
+    return [[k, agg(k, vs)] for k, vs in groups]
+
+
+REUSE = [
+    # (text, [(data, expected)...]): inputs on which the aggregator is valid in the documented convention (it receives
+    # the list of values) next to inputs on which only the pre-1.1.1 (key, values) convention works
+    ('$.groupBy($[0], $[1], [$[0], $[1].sum()])',
+     [([['x', 'a'], ['x', 'b'], ['y', 'c']], [['x', 'ab'], ['y', 'c']]),
+      ([['x', [1, 2]], ['x', [3, 4]], ['y', [7]], ['y', [8, 9]]], [['x', [[1, 2], 7]], ['y', [[7], 17]]]),
+      ([['x', 1], ['y', 2], ['x', 3]], [['x', 4], ['y', 2]]),
+      ([], [])]),
+    ('$.groupBy($[0], $[1], $.len())',
+     [([['x', 1], ['x', 2], ['y', 3]], [['x', 2], ['y', 1]]),
+      ([['x', [1]], ['y', [2]], ['y', [3]]], [['x', 1], ['y', 2]]),
+      ([['k', 'v']], [['k', 1]]), ([], [])]),
+    ('$.orderBy($[0]).select($[1])',
+     [([[2, 'b'], [1, 'a']], ['a', 'b']), ([['b', 1], ['a', 2]], [2, 1]), ([[1, 1]], [1]), ([], [])]),
+    ('$.toDict($[0], $[1]).delete(x)',
+     [([['x', 1], ['y', 2]], {'y': 2}), ([['y', 3]], {'y': 3}), ([['x', 0]], {}), ([], {})]),
+]
+REUSE_BOX = [(n,) for n in range(4)]
+_REUSE_STMTS = {}
+
+
+def law_reuse(t: int, i: int, j: int, k: int) -> bool:
+    """
+    pre: 0 <= t < len(REUSE) and 0 <= i < 4 and 0 <= j < 4 and 0 <= k < 4
+    post: _
+    """
+    tn, seq = REUSE_BOX[t][0], [REUSE_BOX[i][0], REUSE_BOX[j][0], REUSE_BOX[k][0]]
+    with H.NoTracing():
+        text, table = REUSE[tn]
+        st = _REUSE_STMTS.get(tn)
+        if st is None:
+            st = _REUSE_STMTS[tn] = yq.ENG(text)        # held for the life of the process: its history grows path by path
+        ok = True
+        for n in seq:
+            data, want = table[n]
+            try:
+                got = st.evaluate(data=data, context=yq.ROOT.create_child_context())
+            except Exception as ex:
+                got = repr(ex)
+            ok = ok and got == want
+    return H.done(ok)
+
+
 def law_order(c: List[int], np: int, it: bool) -> bool:
     """
     pre: len(c) <= N and -1 <= np < len(c)
@@ -687,7 +744,8 @@ def conditions(tier, seed):
             ('law_distinct', 'law_distinct', {}, 2), ('law_zip', 'law_zip', {}, 2),
             ('law_dict[set]', 'law_dict', {'part': 'set', 'emax': 1 if quick else 2}, 2),
             ('law_dict[delete]', 'law_dict', {'part': 'delete', 'emax': 1 if quick else 2}, 2),
-            ('law_dict_roundtrip', 'law_dict_roundtrip', {'emax': 1 if quick else 2}, 2)]
+            ('law_dict_roundtrip', 'law_dict_roundtrip', {'emax': 1 if quick else 2}, 2),
+            ('law_reuse', 'law_reuse', {}, 2)]
     for pn, part in enumerate('abcd'):
         if not quick or pn % 2 == seed % 2:
             laws.append(('law_sets[%s]' % part, 'law_sets', {'part': part}, 2))
@@ -841,6 +899,16 @@ def replay(cond, args):
         if ok:
             return {'reproduced': False}
         what = '%s fails for %r' % (cond['name'], vals)
+        if func == 'law_reuse':
+            text, table = REUSE[vals['t']]
+            st, steps = yq.ENG(text), []
+            for n in (vals['i'], vals['j'], vals['k']):
+                try:
+                    got = st.evaluate(data=table[n][0], context=yq.ROOT.create_child_context())
+                except Exception as ex:
+                    got = repr(ex)
+                steps.append('on %r -> %r (documented: %r)' % (table[n][0], got, table[n][1]))
+            what = 'one parsed statement %s evaluated in turn %s' % (text, '; then '.join(steps))
         if func == 'h_pipe':
             sels = [H.P('s1', 0), vals['s2']] + ([vals['s3']] if H.P('depth', 2) >= 3 else [])
             res = pipe_check(sels, vals['c'], vals['i1'], vals['k1'], vals['i2'], vals['k2'], vals['i3'], vals['k3'])
